@@ -6,6 +6,7 @@ import (
 	"fmt"
 	"math/rand"
 	"os"
+	"path/filepath"
 	"sort"
 	"strings"
 )
@@ -193,6 +194,10 @@ func oneMain(args []string) {
 	regs := fs.String("regs", "", "name=value,...")
 	memsize := fs.Int("memsize", 1024, "")
 	reps := fs.Int("reps", 1, "")
+	save := fs.String("save", "", "write a witness file for the first finding")
+	kfid := fs.String("id", "", "")
+	fam := fs.String("family", "", "")
+	expErr := fs.Bool("experr", false, "")
 	fs.Parse(args)
 	b, _ := os.ReadFile("/dev/stdin")
 	in := caseInput{Src: string(b), Mem: make([]int8, *memsize)}
@@ -209,7 +214,14 @@ func oneMain(args []string) {
 		in.Regs[regIdx(p[0])] = x
 	}
 	for r := 0; r < *reps; r++ {
-		out := diffCase(in, []config{{V: *v, EU: *eu, WU: *wu}}, diffOpts{Prop: "one", Lockstep: true})
+		out := diffCase(in, []config{{V: *v, EU: *eu, WU: *wu}}, diffOpts{Prop: "one", Lockstep: !*expErr, ExpectErr: *expErr})
+		if *save != "" && len(out.Findings) > 0 {
+			f := out.Findings[0]
+			w := witnessFile{ID: *kfid, Config: f.Config, Input: in, Class: f.Class, Sub: subClass(f.Sub), Site: f.Site, Detail: f.Detail, Family: *fam}
+			wb, _ := json.MarshalIndent(w, "", " ")
+			os.WriteFile(*save, wb, 0o644)
+			fmt.Println("witness written:", *save, "triggers", f.Trig)
+		}
 		if out.Discarded {
 			fmt.Println("discarded:", out.RefErr)
 			return
@@ -221,4 +233,61 @@ func oneMain(args []string) {
 			fmt.Printf("%s %s %s %s: %s | final: %s\n", f.Config, f.Class, f.Sub, f.Site, f.Detail, f.Extra)
 		}
 	}
+}
+
+func init() { extraCmds["min"] = minMain }
+
+// minMain: minimise the program of a replay file, keeping (variant, class, sub-class, site).
+func minMain(args []string) {
+	b, err := os.ReadFile(args[0])
+	if err != nil {
+		fmt.Println(err)
+		return
+	}
+	var f finding
+	if err := json.Unmarshal(b, &f); err != nil || f.Input == nil {
+		fmt.Println("not a replay file")
+		return
+	}
+	o := diffOpts{Prop: f.Prop, Lockstep: true}
+	if f.Class == "error-not-reported" {
+		o = diffOpts{Prop: f.Prop, ExpectErr: true}
+	}
+	mi := minimize(*f.Input, f.Config, f.key(), o)
+	out := diffCase(mi, []config{f.Config}, o)
+	fmt.Printf("config %s\nregs %v\n%s", f.Config, nonzeroRegs(mi.Regs), mi.Src)
+	for _, g := range out.Findings {
+		fmt.Printf("=> %s %s %s: %s | %s\n", g.Class, g.Sub, g.Site, g.Detail, g.Extra)
+	}
+}
+
+func init() { extraCmds["mkwitness"] = mkWitnessMain }
+
+// mkWitnessMain: vcheck mkwitness <replay.json> <KF-id> [minimize]
+func mkWitnessMain(args []string) {
+	b, err := os.ReadFile(args[0])
+	if err != nil {
+		fmt.Println(err)
+		return
+	}
+	var f finding
+	if err := json.Unmarshal(b, &f); err != nil || f.Input == nil {
+		fmt.Println("not a replay file")
+		return
+	}
+	in := *f.Input
+	if len(args) > 2 && args[2] == "min" {
+		o := diffOpts{Prop: f.Prop, Lockstep: true}
+		if f.Class == "error-not-reported" {
+			o = diffOpts{Prop: f.Prop, ExpectErr: true}
+		} else if f.Class == "budget" || f.Class == "panic" {
+			o = diffOpts{Prop: f.Prop}
+		}
+		in = minimize(in, f.Config, f.key(), o)
+	}
+	w := witnessFile{ID: args[1], Prop: f.Prop, Config: f.Config, Input: in, Class: f.Class, Sub: subClass(f.Sub), Site: f.Site, Detail: f.Detail, Family: f.Family}
+	wb, _ := json.MarshalIndent(w, "", " ")
+	path := filepath.Join(verifDir, "findings", args[1]+".json")
+	os.WriteFile(path, wb, 0o644)
+	fmt.Printf("%s: %s %s %s %s triggers=%v\n%s", path, f.Config, f.Class, subClass(f.Sub), f.Site, f.Trig, in.Src)
 }
